@@ -1,9 +1,18 @@
 #!/bin/sh
-# verify every seeded/<id> that has no verify.log yet (demo without/with patch, full test suite with patch)
+# verify every seeded/<id> that has no verify.log yet (demo without/with patch, full test suite with patch);
+# loops until none is left; two at a time
 cd /verif
-for d in seeded/*/; do
-  [ -f "$d/patch.diff" ] || continue
-  [ -f "$d/verify.log" ] && continue
-  tools/seed_verify.sh "$d" --tests > "$d/verify.log.tmp" 2>&1
-  mv "$d/verify.log.tmp" "$d/verify.log"
+while :; do
+  todo=""
+  for d in seeded/*/; do
+    [ -f "$d/patch.diff" ] || continue
+    [ -f "$d/verify.log" ] && continue
+    [ -f "$d/verify.log.tmp" ] && continue
+    todo="$todo $d"
+  done
+  [ -z "$todo" ] && break
+  set -- $todo
+  ( : > "$1/verify.log.tmp"; tools/seed_verify.sh "$1" --tests > "$1/verify.log.tmp" 2>&1; mv "$1/verify.log.tmp" "$1/verify.log" ) &
+  if [ -n "$2" ]; then ( : > "$2/verify.log.tmp"; tools/seed_verify.sh "$2" --tests > "$2/verify.log.tmp" 2>&1; mv "$2/verify.log.tmp" "$2/verify.log" ) & fi
+  wait
 done
